@@ -438,18 +438,37 @@ func (Engine) RunOne(t *core.Tape, prop, tier string, info *core.RunInfo) *core.
 					}
 					rands2 = r2
 				}
-				d2, err := dss.NewDSS(kit.Ed(), privs[owner], pubs, longs[owner], rands2[owner], msg, uint32(th))
+				other := rands2[owner]
+				crafted := false
+				if cs := rands[owner].Commitments(); len(cs) >= 3 && t.Bool("byz.samer", 400) {
+					// another session whose one-time sharing f' has the SAME public key R = f'(0)G and the
+					// same share for the owner: f'(x) = f(x) + c*x*(x - x_owner). Everything that only
+					// looks at R, the long-term key, the message or the owner's share coincides; the
+					// sessions differ in the other commitments, hence in their session ids. (Seed C12h:
+					// the session id was reduced to H(A || R).)
+					c := kit.BigScalar(suite, new(big.Int).SetBytes(t.Bytes("byz.samer", 31)))
+					xo := suite.Scalar().SetInt64(int64(owner + 1))
+					cs2 := kit.CopyPoints(suite, cs)
+					cs2[1] = suite.Point().Sub(cs2[1], suite.Point().Mul(suite.Scalar().Mul(c, xo), nil))
+					cs2[2] = suite.Point().Add(cs2[2], suite.Point().Mul(c, nil))
+					other = &plainDKS{sh: &share.PriShare{I: uint32(owner), V: rands[owner].PriShare().V.Clone()}, commits: cs2}
+					crafted = true
+				}
+				d2, err := dss.NewDSS(kit.Ed(), privs[owner], pubs, longs[owner], other, msg, uint32(th))
 				if err != nil {
 					return viol("setup", "setup/newdss", "%v", err)
 				}
 				ps, _ := d2.PartialSig()
 				vb, _ := ps.Partial.V.MarshalBinary()
 				w = &wire{I: ps.Partial.I, V: vb, Sid: ps.SessionID, Sig: ps.Signature}
-				if t.Bool("byz", 400) {
+				if t.Bool("byz", 400) && !crafted { // (crafted: the value is the valid one, a relabelled copy would simply be valid)
 					// re-label it with this session's id and re-sign (the owner key is the adversary's)
 					w = signPartial(owner, uint32(owner), ps.Partial.V, sessionSid)
 				}
 				w.kind = "cross-session-onetime-key"
+				if crafted {
+					w.kind = "cross-session-onetime-key-same-R-same-share"
+				}
 			case 5: // same keys, other message: session id identical, value differs
 				m2 := append(kit.CopyBytes(msg), 0x01)
 				d2, err := dss.NewDSS(kit.Ed(), privs[owner], pubs, longs[owner], rands[owner], m2, uint32(th))
